@@ -31,7 +31,12 @@ TMinND == Ev("MinND") /\ LET ev == Log[l] IN Judge(
             /\ ev.returned                                  \* a meaningful request returns (NMAX exceeded exits)
             /\ ev.notworse /\ ev.stateok
             /\ (ev.cls = "bowl" => ev.dq >= 0 /\ ev.dq <= 1))
-Next == TNM \/ TMin1D \/ TMinND
+\* one object used for a sequence of calls: every call returns, and returns what a fresh object returns (the calls are independent);
+\* the sequence is long enough to matter (more evaluations in total than the per-call limit NMAX = 5000)
+TMinReuse == Ev("MinReuse") /\ LET ev == Log[l] IN Judge(
+            /\ ev.returned /\ ev.ncalls >= 40 /\ ev.evals > 5000
+            /\ ev.ndiff = 0 /\ ev.nbadstate = 0)
+Next == TNM \/ TMin1D \/ TMinND \/ TMinReuse
 Spec == Init /\ [][Next]_l
 TraceAccepted == /\ TLCGet("stats").diameter - 1 = Len(Log)
                  /\ PrintT(<<"REJECTED-EVENTS", TLCGet(7)>>)
